@@ -4,14 +4,19 @@ import (
 	"bytes"
 	"context"
 	"fmt"
+	"io"
 	"math"
 	"math/rand"
+	"net/http"
+	"net/url"
 	"os"
 	"os/exec"
 	"path/filepath"
 	"regexp"
 	"strconv"
 	"strings"
+	"sync"
+	"sync/atomic"
 	"syscall"
 	"time"
 
@@ -407,6 +412,51 @@ func workerServer1P(c *fw.Ctx) (baseURL, servedDir string, ok bool) {
 	c.Env.State["server1p_cmd"] = cmd
 	c.Env.State["server1p_out"] = out
 	return u, dir, true
+}
+
+// withServerNoise runs f while several clients keep asking the server at base for the given served files (view and
+// view-raw of every archive): whatever a request handler shares with other requests is then shared with these.
+// The responses are only counted; the files are never modified.
+func withServerNoise(c *fw.Ctx, base string, files []string, f func()) {
+	if len(files) == 0 {
+		f()
+		return
+	}
+	stop := make(chan struct{})
+	var wg sync.WaitGroup
+	var done int64
+	client := &http.Client{Timeout: 30 * time.Second, Transport: &http.Transport{MaxIdleConnsPerHost: 8}}
+	for g := 0; g < 6; g++ {
+		wg.Add(1)
+		go func(g int) {
+			defer wg.Done()
+			for k := g; ; k++ {
+				select {
+				case <-stop:
+					return
+				default:
+				}
+				file := files[k%len(files)]
+				now := time.Now().Unix()
+				u := fmt.Sprintf("%s/view?file=%s&retention=-1&from=%s&until=%s&now=%s", base, url.QueryEscape(file), url.QueryEscape(tsArg(0)), url.QueryEscape(tsArg(now)), url.QueryEscape(tsArg(now)))
+				if k%5 == 4 {
+					u = fmt.Sprintf("%s/view-raw?file=%s&retention=-1", base, url.QueryEscape(file))
+				}
+				resp, err := client.Get(u)
+				if err != nil {
+					continue
+				}
+				io.Copy(io.Discard, resp.Body)
+				resp.Body.Close()
+				atomic.AddInt64(&done, 1)
+			}
+		}(g)
+	}
+	f()
+	close(stop)
+	wg.Wait()
+	client.CloseIdleConnections()
+	c.Count("concurrent_noise_requests_served", atomic.LoadInt64(&done))
 }
 
 // serverOutput returns what the worker's server printed so far (for panic scanning).
